@@ -256,3 +256,39 @@ B('c10-lookup-slice-reversed', 'C10', SCD, "        for scope in reversed(self.s
 B('c10-lookup-index-down', 'C10', SCD,
   "        for scope in reversed(self.scopes):\n            if item in scope:\n                return scope[item]",
   "        for i in range(len(self.scopes) - 1, -1, -1):\n            if item in self.scopes[i]:\n                return self.scopes[i][item]")
+
+# =============================================================================== C11
+M('c11-parse-no-paren-reset', 'C11', 'C11.R2', SQP,
+  "            self.lex.lineno = 1\n            self.lex.paren_count = 0\n\n            self.lex.ast = None", "            self.lex.lineno = 1\n\n            self.lex.ast = None")
+M('c11-listnames-no-lineno-reset', 'C11', 'C11.R2', SQP,
+  "        self.lex.lexpos = 0\n        self.lex.lineno = 1\n        self.lex.paren_count = 0\n\n        self.lex.input(expr)",
+  "        self.lex.lexpos = 0\n        self.lex.paren_count = 0\n\n        self.lex.input(expr)")
+M('c11-ast-not-cleared', 'C11', 'C11.R2', SQP, "            self.lex.ast = None\n", "")
+M('c11-new-lexer-counter', 'C11', 'C11.R2', edits=[
+  (SQP, "        self.yacc = yacc.yacc(", "        self.lex.stmt_count = 0\n\n        self.yacc = yacc.yacc("),
+  (LEX, "        t.lexer.lineno += 1\n        return t", "        t.lexer.lineno += 1\n        t.lexer.stmt_count += 1\n        if t.lexer.stmt_count > 1000:\n            raise ParserError('too many statements')\n        return t")])
+M('c11-scopes-cached-on-parser', 'C11', None, SQP,
+  "        scoped_names = ScopedDict({**FUNCTIONS})\n",
+  "        if not hasattr(self, '_scoped'):\n            self._scoped = ScopedDict({**FUNCTIONS})\n        scoped_names = self._scoped\n")
+M('c11-last-result-on-parser', 'C11', None, SQP,
+  "            return ast.eval(state)", "            self.last_result = ast.eval(state)\n            return self.last_result")
+M('c11-mutable-default-accumulates', 'C11', 'C11.R1', FUN,
+  "def _join(container: list, sep='\\n'):\n    return sep.join(map(str, container))",
+  "def _join(container: list, sep='\\n', _acc=[]):\n    _acc.extend(container)\n    return sep.join(map(str, _acc))")
+M('c11-global-counter', 'C11', 'C11.R1', FUN,
+  "def _enumerate(container: Any) -> list:\n    return list(enumerate(container))",
+  "_CALLS = 0\n\n\ndef _enumerate(container: Any) -> list:\n    global _CALLS\n    _CALLS += 1\n    return list(enumerate(container, _CALLS))")
+M('c11-reset-to-previous', 'C11', 'C11.R2', SQP,
+  "            self.lex.lineno = 1\n            self.lex.paren_count = 0\n\n            self.lex.ast = None",
+  "            self.lex.lineno = 1\n            self.lex.paren_count = max(self.lex.paren_count, 0)\n\n            self.lex.ast = None")
+M('c11-lexes-stale-text', 'C11', 'C11.R2', SQP,
+  "        self.lex.input(expr)\n\n        while True:", "        if expr:\n            self.lex.input(expr)\n\n        while True:")
+
+B('c11-reset-helper', 'C11', edits=[
+  (SQP, "    def list_names(self, expr: str) -> Iterable[str]:\n        self.lex.lexpos = 0\n        self.lex.lineno = 1\n        self.lex.paren_count = 0\n",
+        "    def _reset(self):\n        self.lex.lexpos = 0\n        self.lex.lineno = 1\n        self.lex.paren_count = 0\n\n    def list_names(self, expr: str) -> Iterable[str]:\n        self._reset()\n"),
+  (SQP, "            self.lex.lexpos = 0\n            self.lex.lineno = 1\n            self.lex.paren_count = 0\n\n            self.lex.ast = None",
+        "            self._reset()\n\n            self.lex.ast = None")])
+B('c11-input-before-resets', 'C11', SQP,
+  "        self.lex.lexpos = 0\n        self.lex.lineno = 1\n        self.lex.paren_count = 0\n\n        self.lex.input(expr)",
+  "        self.lex.input(expr)\n        self.lex.lineno = 1\n        self.lex.paren_count = 0")
